@@ -1,27 +1,24 @@
 import FiberModel.C02.Spec
 /-
 C02 — regions of recorded known findings (decidable predicates on the case input), see
-known/C02.json. The theorems in Props.lean that are `_partial` carry `Known.K1 … = false`.
+known/C02.json. There is no open known finding: K1 (case-insensitive routing lower-cased the
+constraint text) was repaired in fiber (commit "constraints keep the letter case they were written
+in"); `foldSensitive` describes the inputs it was about, the driver tags them so that every run
+shows they are generated and now meet the specification.
 -/
 namespace C02.Known
 open B C02
 
-/-- A declared constraint that ASCII lower-casing of the pattern text replaces by a different one:
-    a registered custom constraint whose name has an upper-case letter (the lower-cased name no
-    longer selects it), or a data item with an upper-case letter (regex, datetime layout, custom
-    arguments). The built-in `minLen`/`maxLen`/`betweenLen` are not affected by themselves (fiber
-    accepts their lower-case spelling and their data are numbers) — unless a custom constraint is
-    registered under the lower-cased spelling (`minlen`): then the folded name selects the custom
-    constraint instead of the declared built-in one (GET /:x<minLen(10)> with a custom `minlen`
-    serves /ac). -/
+/-- A declared constraint that ASCII lower-casing of the pattern text would replace by a different
+    one: a registered custom constraint whose name has an upper-case letter, a built-in written with
+    an upper-case letter while a custom constraint is registered under the folded name, or a data
+    item with an upper-case letter (regex, datetime layout, custom arguments). -/
 def foldSensitive (custom : List Bytes) (c : Constraint) : Bool :=
   (toLower c.name != c.name && (custom.contains c.name || custom.contains (toLower c.name)))
     || c.data.any (fun d => toLower d != d)
 
-/-- K1: without CaseSensitive the router parses the *lower-cased* pattern, so a fold-sensitive
-    declared constraint is not the one enforced. Region: configuration is case-insensitive and some
-    declared constraint is fold-sensitive. -/
-def K1 (cfg : Config) (custom : List Bytes) (declared : List Seg) : Bool :=
+/-- the former region of K1 -/
+def wasK1 (cfg : Config) (custom : List Bytes) (declared : List Seg) : Bool :=
   !cfg.caseSensitive && declared.any (fun s => s.isParam && s.constraints.any (foldSensitive custom))
 
 end C02.Known
